@@ -57,6 +57,7 @@ void vm_init(VmState *vm, const NvmModule *module) {
     vm->cop_in_fd = -1;
     vm->cop_out_fd = -1;
     vm->cop_pid = -1;
+    vm->cop_was_ready = false;
     vm_heap_init(&vm->heap);
 }
 
